@@ -48,6 +48,8 @@ func runC02(c *Ctx, r *Report) {
 	importRules(c, r, "C13", []string{"R-C13.12"}, "R-C02.17", 0)
 	r.Doc("R-C02.18", "between the first index update of a merge and the store of the merged heads nothing runs that the caller supplied (a panicking sort function would leave merged, unreferenced entries that are no heads)")
 	noCallerCodeMidUpdate(c, r, "R-C02.18")
+	r.Doc("R-C02.19", "within one key space — the entry maps of the logs, or any one Go map — every key derived from an identifier is derived by the same method (a predecessor index filed under one form of a CID and asked under another finds nothing: referenced entries stay heads)")
+	oneSpellingOfAHash(c, r, "R-C02.19")
 	r.Doc("R-C02.9", "the predecessor index that decides which entries are referenced is keyed by predecessor links of the filed entry (not by its references, not by another list)")
 	indexKeys(c, r, "R-C02.9")
 
